@@ -328,10 +328,27 @@ func (e *handlerStore[T]) off(handler ...T) {
 		return
 	}
 
-	remove := func(h T) bool { return slices.Contains(handler, h) }
+	remove := func(h T) bool {
+		return slices.ContainsFunc(handler, func(_h T) bool { return sameHandler(h, _h) })
+	}
 
 	e.funcs = slices.DeleteFunc(e.funcs, remove)
 	e.funcsOnce = slices.DeleteFunc(e.funcsOnce, remove)
+}
+
+// Handlers are stored as pointers to func values. On* and Off* methods each take
+// the address of their own copy of the func, so these addresses never match.
+// Compare the identity of the funcs pointed to instead (as eventHandlerStore does).
+func sameHandler[T comparable](a, b T) bool {
+	if a == b {
+		return true
+	}
+	av, bv := reflect.ValueOf(a), reflect.ValueOf(b)
+	if av.Kind() != reflect.Pointer || av.IsNil() || bv.IsNil() {
+		return false
+	}
+	av, bv = av.Elem(), bv.Elem()
+	return av.Kind() == reflect.Func && av.Pointer() == bv.Pointer()
 }
 
 func (e *handlerStore[T]) offAll() {
